@@ -190,6 +190,8 @@ def make_run_plan(run_seed: int, profile: str, tier: str = "quick", overrides: d
     if big and tier == "thorough":
         P["batch_size"] = rng.choice([(20000, 20000), (50000, 50000), (100000, 100000)])
     fresh_ref = rng.random() < P["fresh_ref_p"]
+    # the caller builds a new Model object for (most) get_lcm_function calls and drops it afterwards
+    fresh_models = rng.random() < P.get("fresh_models_p", 0.3)
     # share of function objects built with debug_mode=True: the first such build raises the level of
     # the process-global "lcm" logger for good; with 0.0 nothing is ever logged in the run
     debug_p = rng.choice(P.get("debug_p", [0.0, 0.25, 0.7, 0.7, 1.0]))
@@ -405,6 +407,8 @@ def make_run_plan(run_seed: int, profile: str, tier: str = "quick", overrides: d
 
     def build_op(hid, mid, target, jit, debug, worker=0):
         o = {"id": b.oid(), "kind": "BUILD", "worker": worker, "handle": hid, "model": mid, "model_id": mid, "target": target, "jit": jit, "debug": debug}
+        if fresh_models and rng.random() < 0.7:
+            o["fresh_model"] = True
         if rng.random() < P.get("fill_template_p", 0.4):
             pids_m = sorted(p for p in b.params if b.params[p]["model"] == mid)
             o["fill"] = rng.choice(pids_m)
@@ -529,8 +533,8 @@ def make_run_plan(run_seed: int, profile: str, tier: str = "quick", overrides: d
                 needs.append(c[1])
             return sim_op(
                 hnd["hid"], s, worker=w, needs=needs, vsrc=vsrc, vsrc_kind=vkind, leaf=leaf,
-                variant=rng.random() < 0.4, vform=rng.choice(["asis", "asis", "np", "jax"]),
-                bform=rng.choice(["np", "np", "jax"]),
+                variant=rng.random() < 0.4, vform=rng.choice(["asis", "asis", "np", "jax", "npF"]),
+                bform=rng.choice(["np", "np", "jax", "np_strided", "np_revview", "np_fcol", "np_ccol", "np_ccol_rev", "np_ro"]),
             )
 
         # "estimation loop": one worker calls one long-lived function again and again with ONE
@@ -681,7 +685,21 @@ def make_run_plan(run_seed: int, profile: str, tier: str = "quick", overrides: d
                 retry = dict(o)
                 retry.pop("faults")
                 retry["id"] = None
+                retry["_of"] = o["id"]
                 o["_retry"] = retry
+            if kind != "log_stall" and o["kind"] in ("SOLVE", "SIMULATE") and rng.random() < 0.5:
+                # before (or instead of) the retry the caller uses the same function object for something
+                # else: another call signature of the session on the same handle, same worker
+                # (only calls that come earlier in the session: everything they depend on has been scheduled before)
+                pos_o = next(i for i, x in enumerate(ops) if x is o)
+                others = [x for x in ops[:pos_o] if x["kind"] == o["kind"] and x.get("handle") == o["handle"] and x.get("sig") != o.get("sig") and not x.get("pobj") and not x.get("vobj")]
+                if others:
+                    after = copy.deepcopy(rng.choice(others))
+                    for k_ in ("faults", "_retry", "_after", "_loop_fault", "prefetch"):
+                        after.pop(k_, None)
+                    after["id"] = b.oid()
+                    after["worker"] = o["worker"]
+                    o["_after"] = after
 
     add_faults(chaos_ops)
 
@@ -690,6 +708,9 @@ def make_run_plan(run_seed: int, profile: str, tier: str = "quick", overrides: d
         out = []
         for o in ops:
             out.append(o)
+            a = o.pop("_after", None)
+            if a is not None:
+                out.append(a)
             r = o.pop("_retry", None)
             if r is not None:
                 out.append(r)
@@ -700,7 +721,7 @@ def make_run_plan(run_seed: int, profile: str, tier: str = "quick", overrides: d
             new = b.oid()
             o["id"] = new
             if old is None:
-                retry_of[out[idx - 1]["_old"]] = new
+                retry_of[o.pop("_of")] = new
             else:
                 mapping[old] = new
                 o["_old"] = old
@@ -832,7 +853,7 @@ def make_run_plan(run_seed: int, profile: str, tier: str = "quick", overrides: d
         "swarm": {
             "n_models": n_models, "n_workers": n_workers, "fault_kinds": fault_kinds, "extras": extras,
             "restart": restart, "spy": spy, "quanta": quanta_mix, "fresh_ref": fresh_ref, "leaf": default_leaf,
-            "iso_ref": sorted(iso_models), "debug_p": debug_p, "write_p": write_p,
+            "iso_ref": sorted(iso_models), "debug_p": debug_p, "write_p": write_p, "fresh_models": fresh_models,
         },
     }
 
